@@ -13,7 +13,7 @@ use rand::Rng;
 use serde_json::{json, Value};
 
 /// element types of the banded / tridiagonal suites
-pub trait BE: Elem + PartialOrd {
+pub trait BE: Elem + PartialOrd + Send + Sync + 'static {
     fn from_f(re: f64, im: f64) -> Self;
     fn to_c(&self) -> (f64, f64);
 }
@@ -36,7 +36,9 @@ pub fn scal<T: BE>(re: &Value, im: Option<&Value>) -> T {
 /// an f64 from JSON: integer, {m, e}, or one of the special values "nan", "inf", "-inf", "max", "-max", "-0" (floats only)
 pub fn fval(v: &Value) -> f64 {
     match v.as_str() { Some("nan") => f64::NAN, Some("inf") => f64::INFINITY, Some("-inf") => f64::NEG_INFINITY, Some("max") => f64::MAX, Some("-max") => -f64::MAX, Some("-0") => -0.0,
-        Some(o) => tool_error(&format!("unknown special value {}", o)), None => f64_from(v) }
+        Some(o) => tool_error(&format!("unknown special value {}", o)),
+        // {m, e}: m * 2^e applied in pieces (a single powi would overflow or underflow for |e| beyond ~1020)
+        None => if let Some(n) = v.as_i64() { n as f64 } else { scale2(v["m"].as_i64().unwrap_or_else(|| tool_error("bad scalar")) as f64, v["e"].as_i64().unwrap_or(0)) } }
 }
 /// the same band with special (string) values replaced by 0: what TLC gets to see (only padding slots may be special)
 fn tlc_mat(m: &Value) -> Value { json!({"r": m["r"], "c": m["c"], "d": m["d"].as_array().unwrap().iter().map(|x| if x.is_string() { json!(0) } else { x.clone() }).collect::<Vec<Value>>()}) }
@@ -301,6 +303,8 @@ pub fn ref_gepp(a: &[Vec<CDD>], b: &[CDD]) -> (CDD, f64, Vec<CDD>) {
     (det, minp, x)
 }
 fn cabs(p: (f64, f64)) -> f64 { p.0.hypot(p.1) }
+/// a value of type T times 2^k (exact power-of-two rescaling; floats only)
+pub fn sc<T: BE>(x: T, k: i64) -> T { if k == 0 { x } else { let c = x.to_c(); T::from_f(scale2(c.0, k), scale2(c.1, k)) } }
 /// x * 2^k, exactly (unless the result itself leaves the f64 range); the factor is applied in pieces of at most 2^+-1000
 pub fn scale2(x: f64, k: i64) -> f64 { let mut x = x; let mut k = k; while k != 0 { let s = k.clamp(-1000, 1000); x *= (2.0f64).powi(s as i32); k -= s; } x }
 /// backward error of x for A x = b in units of eps * (|A|_inf |x|_inf + |b|_inf); residual accumulated in double-double
@@ -336,27 +340,34 @@ fn float_units(dc: &[Vec<(f64, f64)>], bc: &[(f64, f64)], det: Option<(f64, f64)
 fn dense_case(bj: &Value) -> Vec<Vec<(f64, f64)>> {
     let (n, m1, m2) = (getu(bj, "n"), getu(bj, "m1"), getu(bj, "m2")); let mm = m1 + m2 + 1;
     let d = bj["c"]["d"].as_array().unwrap(); let di = bj.get("ci").map(|v| v["d"].as_array().unwrap());
-    (0..n).map(|i| (0..n).map(|j| if in_band(n, m1, m2, i, j) { let c = m1 + j - i; (f64_from(&d[i * mm + c]), di.map(|x| f64_from(&x[i * mm + c])).unwrap_or(0.0)) } else { (0.0, 0.0) }).collect()).collect()
+    (0..n).map(|i| (0..n).map(|j| if in_band(n, m1, m2, i, j) { let c = m1 + j - i; (fval(&d[i * mm + c]), di.map(|x| fval(&x[i * mm + c])).unwrap_or(0.0)) } else { (0.0, 0.0) }).collect()).collect()
 }
 
 fn run_lu<T: BE>(case: &Value, out: &mut Out) {
     let cid = geti(case, "cid");
-    let m = match construct::<T>(case, out) { Some(m) => m, None => return };
     let n = getu(&case["band"], "n");
-    let b = vec_of::<T>(&case["b"], if T::CX { case.get("bi") } else { None });
-    let exact = T::NAME == "rat";
+    // exponent sweep (exact modes): the matrix actually built is 2^xa * A (in-band entries), the right-hand side 2^xb * b; the
+    // events speak about the integer system A x = b (the solution is rescaled by exactly 2^(xa - xb), det by 2^(-n xa))
+    let xa = case.get("xa").and_then(|v| v.as_i64()).unwrap_or(0); let xb = case.get("xb").and_then(|v| v.as_i64()).unwrap_or(0);
+    let scase = if xa == 0 && xb == 0 { case.clone() } else { let mut c = case.clone(); let z = vec![0i64; n];
+        if let Some(o) = c.as_object_mut() { o.remove("ea"); o.remove("eb"); }
+        scale_case(&mut c, xa, xb, &z, &z); if let Some(o) = c.as_object_mut() { o.remove("ea"); o.remove("eb"); } c };
+    let m = match construct::<T>(&scase, out) { Some(m) => m, None => return };
+    let b = vec_of::<T>(&scase["b"], if T::CX { scase.get("bi") } else { None });
+    let exact = T::NAME == "rat" || gets(case, "mode") == "exact";
+    let nodet = case.get("nodet").is_some();
     let mut k = 0usize;
     let emit = |out: &mut Out, k: &mut usize, mut e: Value| { e["ty"] = json!(T::NAME); e["cid"] = json!(cid); e["k"] = json!(*k); *k += 1; out.ev(e); };
     let dc: Vec<Vec<(f64, f64)>> = dense_case(&case["band"]);
     let bc: Vec<(f64, f64)> = b.vec.iter().map(|x| x.to_c()).collect();
-    let det = guarded(|| m.det());
-    let sol = guarded(|| m.solve(&b));
+    let det = guarded(|| m.det()).map(|d| sc(d, -xa * n as i64));
+    let sol = guarded(|| m.solve(&b)).map(|x| Vector::create(x.vec.iter().map(|v| sc(*v, xa - xb)).collect()));
     if T::CX && gets(case, "mode") == "exact" {
         // Gaussian-integer data on which every complex float operation of the elimination is exact: judged over Gaussian rationals
         let pre = json!({"n": case["band"]["n"], "m1": case["band"]["m1"], "m2": case["band"]["m2"], "c": case["band"]["c"]}); let prei = im_band(&case["band"]);
         let bi = case.get("bi").cloned().unwrap_or_else(|| zeros_like(&case["b"]));
         let (rq, rqi) = match det.as_ref().ok().and_then(to_rat2) { Some((a, b)) => (jrat(a), jrat(b)), None => (json!([BAD, 1]), json!([BAD, 1])) };
-        emit(out, &mut k, json!({"op": "det_cx", "pre": pre, "prei": prei, "panic": det.is_err(), "rq": rq, "rqi": rqi}));
+        if !nodet { emit(out, &mut k, json!({"op": "det_cx", "pre": pre, "prei": prei, "panic": det.is_err(), "rq": rq, "rqi": rqi})); }
         let conv: Option<Vec<(Rat, Rat)>> = sol.as_ref().ok().and_then(|x| x.vec.iter().map(to_rat2).collect());
         let (xs, xsi, l) = match conv.and_then(|v| cx_common_den(&v, LIM)) { Some((a, b, l)) => (Value::from(a), Value::from(b), json!(l)), None => (Value::from(vec![BAD; n]), Value::from(vec![BAD; n]), json!(BAD)) };
         emit(out, &mut k, json!({"op": "solve_cx", "pre": pre, "prei": prei, "b": case["b"], "bi": bi, "panic": sol.is_err(), "xs": xs, "xsi": xsi, "L": l, "msg": sol.as_ref().err().cloned().unwrap_or_default()}));
@@ -364,9 +375,9 @@ fn run_lu<T: BE>(case: &Value, out: &mut Out) {
         // the operand of these two events is the matrix the CASE prescribes (generators keep its determinant and
         // solution inside TLC's integers); that the object under test holds exactly these in-band entries is the "built" event
         let pre = json!({"n": case["band"]["n"], "m1": case["band"]["m1"], "m2": case["band"]["m2"], "c": case["band"]["c"]});
-        let rq = match &det { Ok(d) => rat_of(d), Err(_) => json!([BAD, 1]) };
-        emit(out, &mut k, json!({"op": "det", "pre": pre, "panic": det.is_err(), "rq": rq}));
-        let (xs, l) = match &sol { Ok(x) => jxs(common_den(&x.vec.iter().map(rat_val).collect::<Vec<Rat>>(), LIM), n), Err(_) => jxs(None, n) };
+        let rq = match det.as_ref().ok().and_then(as_rat) { Some(q) => jrat(q), None => json!([BAD, 1]) };
+        if !nodet { emit(out, &mut k, json!({"op": "det", "pre": pre, "panic": det.is_err(), "rq": rq})); }
+        let (xs, l) = match sol.as_ref().ok().and_then(|x| x.vec.iter().map(as_rat).collect::<Option<Vec<Rat>>>()) { Some(v) => jxs(common_den(&v, LIM), n), None => jxs(None, n) };
         emit(out, &mut k, json!({"op": "solve", "pre": pre, "b": case["b"], "panic": sol.is_err(), "xs": xs, "L": l, "msg": sol.as_ref().err().cloned().unwrap_or_default()}));
     } else {
         // extreme magnitudes: the case says A = A0 * 2^ea, b = b0 * 2^eb.  The error measures are invariant under such
@@ -393,10 +404,37 @@ fn run_lu<T: BE>(case: &Value, out: &mut Out) {
         run_hist_from::<T>(&sub, out, k);
     }
 }
+/// exact rational value of a result: a Rat itself, or a float that is a (real) dyadic rational
+fn as_rat<T: BE>(x: &T) -> Option<Rat> { let any: &dyn std::any::Any = x; if let Some(r) = any.downcast_ref::<Rat>() { return Some(*r); } let (re, im) = x.to_c(); if im != 0.0 { return None; } f64_to_rat(re) }
 fn rat_val<T: BE>(x: &T) -> Rat { let any: &dyn std::any::Any = x; *any.downcast_ref::<Rat>().unwrap_or_else(|| tool_error("exact branch needs Rat")) }
 fn rat_of<T: BE>(x: &T) -> Value { jrat(rat_val(x)) }
 
+// ---- CPU affinity (the crate may size its work by num_cpus::get(), which follows the affinity mask of the calling thread)
+pub fn get_affinity() -> Vec<usize> {
+    unsafe { let mut set: libc::cpu_set_t = std::mem::zeroed();
+        if libc::sched_getaffinity(0, std::mem::size_of::<libc::cpu_set_t>(), &mut set) != 0 { return vec![0]; }
+        (0..libc::CPU_SETSIZE as usize).filter(|c| libc::CPU_ISSET(*c, &set)).collect() }
+}
+pub fn set_affinity(cpus: &[usize]) -> bool {
+    unsafe { let mut set: libc::cpu_set_t = std::mem::zeroed(); libc::CPU_ZERO(&mut set); for c in cpus { libc::CPU_SET(*c, &mut set); }
+        libc::sched_setaffinity(0, std::mem::size_of::<libc::cpu_set_t>(), &set) == 0 }
+}
+/// restores the mask even if something below unwinds
+pub struct RestoreAffinity(pub Vec<usize>);
+impl Drop for RestoreAffinity { fn drop(&mut self) { set_affinity(&self.0); } }
+/// a case with "cpus": k runs with the process restricted to k CPUs (the mask is restored afterwards); the events are the
+/// same as without the restriction and are validated by the same trace specification
+pub fn narrowed(case: &Value) -> Option<RestoreAffinity> {
+    let k = case.get("cpus").and_then(|v| v.as_u64())? as usize;
+    let orig = get_affinity(); let k = k.max(1).min(orig.len());
+    let off = geti(case, "cid").max(0) as usize % orig.len();
+    let cpus: Vec<usize> = (0..k).map(|j| orig[(off + j) % orig.len()]).collect();
+    if !set_affinity(&cpus) { tool_error("sched_setaffinity failed"); }
+    Some(RestoreAffinity(orig))
+}
+
 pub fn exec(case: &Value, out: &mut Out) {
+    let _guard = narrowed(case);
     let hist = matches!(gets(case, "kind"), "hist" | "seq");
     match (gets(case, "ty"), hist) {
         ("rat", true) => run_hist::<Rat>(case, out), ("f64", true) => run_hist::<f64>(case, out), ("cx", true) => run_hist::<Cmplx>(case, out),
@@ -584,6 +622,28 @@ pub fn gen(tier: &str, seed: u64, out: &mut Out) {
         if n >= 3 { geos = vec![(1, 1), (n - 1, n - 1), (2, 1), (rng.gen_range(0..n), rng.gen_range(0..n))]; }
         if quick && geos.len() > 2 { let off = rng.gen_range(0..geos.len()); geos = vec![geos[off], geos[(off + 1) % geos.len()]]; }
         for (m1, m2) in geos { let mut v = vec![]; scaled_cases(&mut rng, n, m1, m2, quick, &mut v); for c in v { push(out, c); } }
+    }
+    { let mut sink = |c: Value| push(out, c); exact_and_sweep(&mut rng, quick, seed, &mut sink); }
+    // (i) the product for sizes beyond the number of CPUs (n up to 40), both forms, all element types; and a sample of the
+    //     small-n battery re-run with the process restricted to 1, 2 and 3 CPUs
+    { let mut t = 0usize;
+      let mut sizes: Vec<usize> = vec![17, 24, 33, 40]; for _ in 0..(if quick { 2 } else { 16 }) { sizes.push(rng.gen_range(11..=40)); }
+      for n in sizes { for rep in 0..(if quick { 2 } else { 4 }) { t += 1;
+        let (m1, m2) = match rep % 4 { 0 => (rng.gen_range(0..4.min(n)), rng.gen_range(0..4.min(n))), 1 => (rng.gen_range(0..n), rng.gen_range(0..n)), 2 => (n - 1, rng.gen_range(0..3)), _ => (rng.gen_range(0..3), n - 1) };
+        let ty = TYS[t % 3]; let cx = ty == "cx";
+        let mut band = rand_band_int(&mut rng, n, m1, m2, -9, 9); if cx { band = with_im(&mut rng, band, -9, 9); }
+        let mv = |rng: &mut StdRng, form: &str| { let mut o = json!({"op": "matvec", "form": form, "v": rand_vec_json(rng, n, -5, 5)}); if cx { o["vi"] = rand_vec_json(rng, n, -5, 5); } o };
+        let ops = vec![json!({"op": "dims"}), mv(&mut rng, "ref"), mv(&mut rng, "own"), json!({"op": "add_scalar_assign", "s": 1}), mv(&mut rng, "ref"), json!({"op": "dense"})];
+        let mut c = json!({"kind": "hist", "fam": "large-n", "ty": ty, "band": band, "ops": ops});
+        if rep % 2 == 1 { c["cpus"] = json!(1 + t % 3); }
+        push(out, c);
+      } }
+      for k in 0..(if quick { 36 } else { 240 }) {
+        let n = rng.gen_range(2..=10usize); let m1 = rng.gen_range(0..n); let m2 = rng.gen_range(0..n); let ty = TYS[k % 3]; let cx = ty == "cx";
+        let mut band = rand_band_int(&mut rng, n, m1, m2, -9, 9); if cx { band = with_im(&mut rng, band, -9, 9); }
+        let ops = hist_ops(&mut rng, n, m1, m2, cx, 8);
+        push(out, json!({"kind": "hist", "fam": "narrowed", "cpus": 1 + (k / 3) % 3, "ty": ty, "band": band, "ops": ops}));
+      }
     }
     // (h) one object resized to a different geometry: systematically the pairs with the SAME number of storage slots but a
     //     different storage shape, pairs that only move the split m1 / m2, and Banded::empty() followed by resize
@@ -959,4 +1019,67 @@ fn reshape_case(rng: &mut StdRng, from: (usize, usize, usize), to: (usize, usize
     ops.push(json!({"op": "add_assign", "form": "ref", "b": other(rng)})); ops.push(json!({"op": "dense"}));
     if !cx { for o in ops.iter_mut() { if let Some(m) = o.as_object_mut() { for k in ["xi", "vi", "bi"] { m.remove(k); } } } }
     json!({"kind": "seq", "fam": "reshape", "ty": ty, "band": band, "ops": ops})
+}
+
+// ------------------------------------------------------------------ exact integer LU with "awkward" pivots; exponent sweep
+/// pivots whose reciprocal is not a dyadic number
+const ODD_PIVOTS: [i64; 10] = [49, 51, 98, 103, 147, 196, 97, 201, 112, 7];
+/// Integer band system on which the compact elimination is exact in f64: A = P (4L) U, U upper band q with diagonal pivots
+/// (+-1, +-2, up to `nodd` from ODD_PIVOTS), 4L lower band p with diagonal 4 and entries in {0, +-1, +-2} (multipliers
+/// 0, +-1/4, +-1/2: the true pivot is strictly the largest candidate), P exchanging disjoint adjacent rows; integer solution
+/// x, b = A x.  Every intermediate of the elimination and of both substitutions is an integer.
+fn exact_lu(rng: &mut StdRng, n: usize, p: usize, q: usize, swaps: bool, nodd: usize, mag: i64) -> (Vec<Vec<i64>>, Vec<i64>, usize, usize) {
+    let pm = |rng: &mut StdRng, v: i64| -> i64 { if rng.gen_bool(0.5) { v } else { -v } };
+    let mut l4 = vec![vec![0i64; n]; n]; let mut u = vec![vec![0i64; n]; n];
+    for i in 0..n { for j in 0..n {
+        if i == j { l4[i][j] = 4; let b = if rng.gen_bool(0.3) { 2 } else { 1 }; u[i][j] = pm(rng, b); }
+        else if i > j && i - j <= p { l4[i][j] = [0i64, 1, -1, 2, -2, 1, -2][rng.gen_range(0..7)]; }
+        else if j > i && j - i <= q { u[i][j] = rng.gen_range(-mag..=mag); }
+    } }
+    for _ in 0..nodd { let k = rng.gen_range(0..n); let v = ODD_PIVOTS[rng.gen_range(0..ODD_PIVOTS.len())]; u[k][k] = pm(rng, v); }
+    let mut a = vec![vec![0i64; n]; n];
+    for i in 0..n { for j in 0..n { a[i][j] = (0..n).map(|k| l4[i][k] * u[k][j]).sum(); } }
+    let x: Vec<i64> = (0..n).map(|_| rng.gen_range(-mag.max(1)..=mag.max(1))).collect();
+    let mut b: Vec<i64> = (0..n).map(|i| (0..n).map(|j| a[i][j] * x[j]).sum()).collect();
+    if swaps { let mut k = 0; while k + 1 < n { if rng.gen_bool(0.5) { a.swap(k, k + 1); b.swap(k, k + 1); k += 2; } else { k += 1; } } }
+    let (mut m1, mut m2) = (0usize, 0usize);
+    for i in 0..n { for j in 0..n { if a[i][j] != 0 { if i > j { m1 = m1.max(i - j); } else { m2 = m2.max(j - i); } } } }
+    (a, b, m1, m2)
+}
+fn lu_case(rng: &mut StdRng, a: &[Vec<i64>], b: &[i64], m1: usize, m2: usize, ty: &str, fam: &str) -> Value {
+    let n = a.len(); let mm = m1 + m2 + 1; let mut d = vec![];
+    for i in 0..n { for c in 0..mm { let j = i as isize + c as isize - m1 as isize; d.push(if j >= 0 && (j as usize) < n { a[i][j as usize] } else { rand_pad(rng) }); } }
+    let mut c = json!({"kind": "lu", "ty": ty, "mode": "exact", "fam": fam, "band": {"n": n, "m1": m1, "m2": m2, "c": {"r": n, "c": mm, "d": d}}, "b": b});
+    // Complex: the determinant is judged only where the fraction-free elimination over Gaussian integers stays inside TLC's integers
+    if ty == "cx" { let ai: Vec<Vec<(i128, i128)>> = a.iter().map(|r| r.iter().map(|x| (*x as i128, 0i128)).collect()).collect(); if cbareiss(&ai).1 >= (1 << 30) { c["nodet"] = json!(true); } }
+    c
+}
+fn exact_and_sweep(rng: &mut StdRng, quick: bool, seed: u64, push: &mut dyn FnMut(Value)) {
+    // (j) awkward pivots (f64 exact, also Rat and Complex)
+    for n in 1..=8usize { for rep in 0..(if quick { 4 } else { 20 }) {
+        for t in 0..60 { let w = if n >= 6 { 2 } else { 3 }; let (pp, qq) = (if n >= 2 { rng.gen_range(1..n.min(w).max(2)) } else { 0 }, rng.gen_range(0..n.min(w))); let (a, b, m1, m2) = exact_lu(rng, n, pp, qq, rep % 2 == 1, if t < 30 { 2 } else { 1 }, 3);
+            let ai: Vec<Vec<i128>> = a.iter().map(|r| r.iter().map(|x| *x as i128).collect()).collect();
+            if fits_tlc(&ai, &b) && m1 < n && m2 < n { let tys: Vec<&str> = if quick { vec!["f64", TYS[(rep + n) % 3]] } else { TYS.to_vec() };
+                for ty in tys { let mut c = lu_case(rng, &a, &b, m1, m2, ty, "odd-pivots"); if quick && rep % 2 == 0 { c["aux"] = json!(false); } push(c); } break; } }
+    } }
+    // (k) exponent sweep over the whole f64 exponent axis (subnormal pivots included); Complex where its own quotient stays in range
+    let step = if quick { 8 } else { 1 }; let phase = ((seed / 3) % step as u64) as i64;
+    let mut idx = 0usize; let mut k = -1070 + phase;
+    while k <= 1020 { idx += 1;
+        for (variant, cx) in [(0usize, false), (1, false), (0, true), (1, true)] {
+            if cx && (k < -530 || k > 500 || (quick && idx % 2 == 1)) { continue; }
+            let n = if variant == 1 { 1 } else { 2 + idx % 5 };
+            for t in 0..60 { let mag = if t < 20 { 2 } else { 1 };
+                let (pp, qq) = (if n >= 2 { rng.gen_range(1..n.min(3).max(2)) } else { 0 }, rng.gen_range(0..n.min(3))); let (a, b, m1, m2) = exact_lu(rng, n, pp, qq, idx % 3 == 0, 0, mag);
+                let mx = a.iter().flatten().chain(b.iter()).map(|x| x.abs()).max().unwrap_or(1).max(1); let bits = 64 - (mx as u64).leading_zeros() as i64 + 3;
+                let both = idx % 2 == 0 || k.abs() > 1000;
+                if !(k + bits <= 1022 && k >= -1072 && (both || (-k + bits <= 1022 && -k - bits >= -1060))) { continue; }
+                let mut c = lu_case(rng, &a, &b, m1, m2, if cx { "cx" } else { "f64" }, "sweep"); c["xa"] = json!(k); c["xb"] = json!(if both { k } else { 0 }); c["aux"] = json!(false);
+                // det = +-4^n prod(u) * 2^(n k)
+                let kn = k * n as i64; if kn + 2 * n as i64 + 6 > 1022 || kn < -1070 || (cx && (kn < -530 || kn > 500)) { c["nodet"] = json!(true); }
+                push(c); break; }
+        }
+        // (finer grid in the subnormal range and next to the overflow threshold)
+        k += if k < -1016 || k >= 996 { (step as i64).min(2) } else { step as i64 };
+    }
 }
